@@ -59,7 +59,24 @@ var InsertPool = map[string][]byte{
 	"tfra0":     boxwalk.Make("tfra", []byte{0, 0, 0, 0, 0, 0, 0, 1, 0, 0, 0, 0, 0, 0, 0, 0}),
 	"mfrafull":  boxwalk.Make("mfra", append(boxwalk.Make("tfra", []byte{0, 0, 0, 0, 0, 0, 0, 1, 0, 0, 0, 0, 0, 0, 0, 0}), boxwalk.Make("mfro", []byte{0, 0, 0, 0, 0, 0, 0, 48})...)),
 	"mfraempty": boxwalk.Make("mfra", boxwalk.Make("mfro", []byte{0, 0, 0, 0, 0, 0, 0, 24})),
+	// sample-group boxes that steer senc parsing (seig) and friends
+	"sbgpseig":  boxwalk.Make("sbgp", []byte{0, 0, 0, 0, 's', 'e', 'i', 'g', 0, 0, 0, 1, 0, 0, 0, 1, 0, 1, 0, 1}),
+	"sbgpseig2": boxwalk.Make("sbgp", []byte{0, 0, 0, 0, 's', 'e', 'i', 'g', 0, 0, 0, 2, 0, 0, 0, 1, 0, 1, 0, 1, 0, 0, 0, 1, 0, 0, 0, 0}),
+	"sgpdseig0": boxwalk.Make("sgpd", []byte{1, 0, 0, 0, 's', 'e', 'i', 'g', 0, 0, 0, 20, 0, 0, 0, 0}),
+	"sgpdseig": boxwalk.Make("sgpd", []byte{1, 0, 0, 0, 's', 'e', 'i', 'g', 0, 0, 0, 20, 0, 0, 0, 1,
+		0, 0, 1, 8, 1, 2, 3, 4, 5, 6, 7, 8, 9, 10, 11, 12, 13, 14, 15, 16}),
+	"sgpdroll":     boxwalk.Make("sgpd", []byte{1, 0, 0, 0, 'r', 'o', 'l', 'l', 0, 0, 0, 2, 0, 0, 0, 1, 0xff, 0xff}),
+	"sgpdseigroll": boxwalk.Make("sgpd", []byte{1, 0, 0, 0, 's', 'e', 'i', 'g', 0, 0, 0, 2, 0, 0, 0, 1, 0xff, 0xff}),
+	"mdatlarge":    {0, 0, 0, 1, 'm', 'd', 'a', 't', 0, 0, 0, 0, 0, 0, 0, 20, 1, 2, 3, 4},
+	"mdathuge":     {0, 0, 0, 1, 'm', 'd', 'a', 't', 0xff, 0xff, 0xff, 0xff, 0xff, 0xff, 0xff, 0xf0},
+	"mdat63":       {0, 0, 0, 1, 'm', 'd', 'a', 't', 0x80, 0, 0, 0, 0, 0, 0, 0x10},
+	"elst1":        boxwalk.Make("edts", boxwalk.Make("elst", []byte{0, 0, 0, 0, 0, 0, 0, 1, 0, 0, 0, 10, 0, 0, 0, 0, 0, 1, 0, 0})),
+	"subs":         boxwalk.Make("subs", []byte{0, 0, 0, 0, 0, 0, 0, 1, 0, 0, 0, 1, 0, 1, 0, 4, 0, 0, 0, 0, 0, 0}),
+	"pssh1":        boxwalk.Make("pssh", []byte{1, 0, 0, 0, 1, 2, 3, 4, 5, 6, 7, 8, 9, 10, 11, 12, 13, 14, 15, 16, 0, 0, 0, 0, 0, 0, 0, 0}),
 }
+
+// Hostile64: values for 64-bit size and offset fields.
+var Hostile64 = []uint64{0, 1, 15, 16, 17, 0xffffffff, 0x100000000, 0x7fffffffffffffff, 0x8000000000000000, 0x8000000000000010, 0xfffffffffffffff0, 0xffffffffffffffff}
 
 var insertNames []string
 
@@ -84,7 +101,7 @@ func Gen(t *rapid.T, max int) []Mut {
 	n := rapid.IntRange(1, max).Draw(t, "nmut")
 	out := make([]Mut, 0, n)
 	for i := 0; i < n; i++ {
-		m := Mut{Op: rapid.SampledFrom([]string{"bytes", "bytes", "payload", "payload", "size", "size", "count", "count", "truncate", "drop", "drop", "dup", "swap", "rename", "insert", "insert", "zero", "verflags", "verflags", "wrap"}).Draw(t, "op")}
+		m := Mut{Op: rapid.SampledFrom([]string{"bytes", "bytes", "payload", "payload", "size", "size", "count", "count", "truncate", "drop", "drop", "dup", "swap", "rename", "insert", "insert", "zero", "verflags", "verflags", "wrap", "largesize"}).Draw(t, "op")}
 		m.Box = rapid.IntRange(0, 400).Draw(t, "box")
 		switch m.Op {
 		case "bytes": // overwrite 1..8 bytes at an absolute offset (modulo length)
@@ -113,6 +130,14 @@ func Gen(t *rapid.T, max int) []Mut {
 			m.N = rapid.IntRange(1, 64).Draw(t, "n")
 		case "verflags":
 			m.Val = rapid.OneOf(rapid.SampledFrom([]uint64{0, 1, 2, 0x01000000, 0x00000001, 0x00000002, 0x00000004, 0x00000100, 0x00000200, 0x00000400, 0x00000800, 0x00000f01, 0x00020000, 0x00ffffff, 0xffffffff}), rapid.Uint64Range(0, 0xffffffff)).Draw(t, "vf")
+		case "largesize": // give the box a 64-bit size header: N=0 keeps the length, N=1 claims Val
+			// N=2: the 64-bit size is the (negative) distance back to the start of box number Val, N=3: 2^64-Val
+			m.N = rapid.IntRange(0, 3).Draw(t, "mode")
+			if m.N >= 2 {
+				m.Val = rapid.Uint64Range(0, 400).Draw(t, "val")
+			} else {
+				m.Val = rapid.OneOf(rapid.SampledFrom(Hostile64), rapid.Uint64()).Draw(t, "val")
+			}
 		case "wrap":
 			m.Str = rapid.SampledFrom([]string{"moov", "trak", "moof", "traf", "stbl", "free", "udta", "meta", "mdia", "minf", "mvex", "sinf", "schi", "zzzz"}).Draw(t, "container")
 		}
@@ -281,6 +306,24 @@ func Apply(seed []byte, muts []Mut) []byte {
 				continue
 			}
 			binary.BigEndian.PutUint32(data[b.PayloadStart():], uint32(m.Val))
+		case "largesize":
+			if b == nil || b.Large || b.Size > 1<<20 || b.Start+8 > len(data) {
+				continue
+			}
+			fixParents(data, tree, b.Start+1, 8)
+			v := uint64(b.Size + 8)
+			switch m.N {
+			case 1:
+				v = m.Val
+			case 2:
+				v = uint64(int64(flat[int(m.Val)%len(flat)].Start) - int64(b.Start))
+			case 3:
+				v = -m.Val
+			}
+			var ls [8]byte
+			binary.BigEndian.PutUint64(ls[:], v)
+			binary.BigEndian.PutUint32(data[b.Start:], 1)
+			data = append(data[:b.Start+8], append(ls[:], data[b.Start+8:]...)...)
 		case "wrap":
 			if b == nil || len(m.Str) != 4 || b.Size > 1<<20 {
 				continue
